@@ -329,6 +329,9 @@ func (s *State) evalNode(node any) object.Object { //nolint:funlen,gocognit,gocy
 		if oerr != nil {
 			return *oerr
 		}
+		for i := range elements {
+			elements[i] = object.Value(elements[i]) // store values, not live references to outer variables.
+		}
 		return object.NewArray(elements)
 	case *ast.MapLiteral:
 		return s.evalMapLiteral(node)
@@ -412,7 +415,7 @@ func (s *State) evalPrintLogError(node *ast.Builtin) object.Object {
 		if i > 0 {
 			buf.WriteString(" ")
 		}
-		r := s.evalInternal(v)
+		r := unref(s.evalInternal(v)) // so a string variable of an enclosing scope prints raw like any string.
 		// If what we print/println is an error, return it instead. log can log errors.
 		if r.Type() == object.ERROR && !doLog {
 			return r
